@@ -18,6 +18,28 @@ Definition read_chunk_len (rest : bytes) : rs (N * bytes) :=
        if dc_neg (Z.of_N v) then Err OSErrorE else Ok (v, rest')
   else Err OSErrorE.
 
+(* one pass of the while loop of DechunkedInput.readinto(buf), in its three parts *)
+(* if self._len == 0: self._len = self.read_chunk_len() *)
+Definition dc_header (st : dst) : rs (N * bytes) :=
+  if dc_zero1 (Z.of_N (d_len st)) then read_chunk_len (d_rest st) else Ok (d_len st, d_rest st).
+
+(* if self._len > 0: n = min(len(buf) - read, self._len); data = rfile.read(n); short -> OSError;
+   buf[read:read+n] = data; self._len -= n; read += n *)
+Definition dc_data (len1 : N) (rest1 : bytes) (size read : N) (acc : bytes) : rs (N * bytes * N * bytes) :=
+  if dc_pos (Z.of_N len1)
+  then let n := Z.to_N (dc_n (Z.of_N size) (Z.of_N read) (Z.of_N len1)) in
+       let data := takeN n rest1 in
+       if dc_short (Z.of_N (lenN data)) (Z.of_N n) then Err OSErrorE
+       else Ok (len1 - n, dropN n rest1, read + n, acc ++ data)
+  else Ok (len1, rest1, read, acc).
+
+(* if self._len == 0: terminator = rfile.readline(); not in (LF, CRLF, CR) -> OSError *)
+Definition dc_term (len2 : N) (rest2 : bytes) : rs bytes :=
+  if dc_zero3 (Z.of_N len2)
+  then let '(term, rest3) := rf_readline rest2 in
+       if mem_bytes term dc_terminators then Ok rest3 else Err OSErrorE
+  else Ok rest2.
+
 (* the while loop of DechunkedInput.readinto(buf), len(buf) = size; acc = buf[:read] *)
 Fixpoint dc_loop (fuel : nat) (st : dst) (size read : N) (acc : bytes) : rs (bytes * dst) :=
   if negb (dc_continue (d_done st) (Z.of_N read) (Z.of_N size)) then Ok (acc, st)
@@ -25,24 +47,17 @@ Fixpoint dc_loop (fuel : nat) (st : dst) (size read : N) (acc : bytes) : rs (byt
     match fuel with
     | O => Err FuelE
     | S f =>
-      match (if dc_zero1 (Z.of_N (d_len st)) then read_chunk_len (d_rest st) else Ok (d_len st, d_rest st)) with
+      match dc_header st with
       | Err e => Err e
       | Ok (len1, rest1) =>
         let done1 := if dc_zero2 (Z.of_N len1) then true else d_done st in
-        match (if dc_pos (Z.of_N len1)
-               then let n := Z.to_N (dc_n (Z.of_N size) (Z.of_N read) (Z.of_N len1)) in
-                    let data := takeN n rest1 in
-                    if dc_short (Z.of_N (lenN data)) (Z.of_N n) then Err OSErrorE
-                    else Ok (len1 - n, dropN n rest1, read + n, acc ++ data)
-               else Ok (len1, rest1, read, acc)) with
+        match dc_data len1 rest1 size read acc with
         | Err e => Err e
         | Ok (len2, rest2, read2, acc2) =>
-          if dc_zero3 (Z.of_N len2)
-          then let '(term, rest3) := rf_readline rest2 in
-               if mem_bytes term dc_terminators
-               then dc_loop f {| d_len := len2; d_done := done1; d_rest := rest3 |} size read2 acc2
-               else Err OSErrorE
-          else dc_loop f {| d_len := len2; d_done := done1; d_rest := rest2 |} size read2 acc2
+          match dc_term len2 rest2 with
+          | Err e => Err e
+          | Ok rest3 => dc_loop f {| d_len := len2; d_done := done1; d_rest := rest3 |} size read2 acc2
+          end
         end
       end
     end.
@@ -135,6 +150,22 @@ Definition uses_chunked (proto method : str) (code : N) (headers : list (str * s
 Definition server_name : str := [83; 101; 114; 118; 101; 114].   (* Server *)
 Definition date_name : str := [68; 97; 116; 101].                (* Date *)
 
+(* the body part: one frame per non-empty piece, then the final chunk when chunked *)
+Definition response_body (chunked : bool) (pieces : list bytes) : bytes :=
+  concat (map (chunk_frame chunked) pieces) ++ (if chunked then final_chunk else []).
+
+(* interim response, status line and header block *)
+Definition response_head (proto : str) (expect : option str) (server date : str) (code : N) (msg : str)
+                         (headers : list (str * str)) (chunked : bool) : bytes :=
+  (match expect with
+   | Some v => if list_eqb (strip uni_ws (lower v)) expect_value then continue_bytes else []
+   | None => [] end)
+  ++ proto ++ [SP] ++ dec_of_N code ++ [SP] ++ msg ++ CRLF
+  ++ header_line (server_name, server) ++ header_line (date_name, date)
+  ++ concat (map header_line headers)
+  ++ (if chunked then header_line (te_name, te_value) else [])
+  ++ header_line (conn_name, conn_value) ++ CRLF.
+
 (* everything run_wsgi writes for an application that calls start_response(status, headers) and
    produces the body pieces (through write() and/or by iteration, in this order);
    server / date: the values http.server puts into its Server and Date headers *)
@@ -144,16 +175,7 @@ Definition respond (proto method : str) (expect : option str) (server date : str
   | None => None
   | Some (code, msg) =>
     let chunked := uses_chunked proto method code headers in
-    let pre := match expect with
-               | Some v => if list_eqb (strip uni_ws (lower v)) expect_value then continue_bytes else []
-               | None => [] end in
-    Some (pre ++ proto ++ [SP] ++ dec_of_N code ++ [SP] ++ msg ++ CRLF
-          ++ header_line (server_name, server) ++ header_line (date_name, date)
-          ++ concat (map header_line headers)
-          ++ (if chunked then header_line (te_name, te_value) else [])
-          ++ header_line (conn_name, conn_value) ++ CRLF
-          ++ concat (map (chunk_frame chunked) pieces)
-          ++ (if chunked then final_chunk else []))
+    Some (response_head proto expect server date code msg headers chunked ++ response_body chunked pieces)
   end.
 
 (* ================================================================== make_environ *)
@@ -277,4 +299,75 @@ Definition make_environ (target : str) (headers : list (str * str)) : option env
             en_query_string := wsgi_encoding_dance (u_query u);
             en_request_uri := wsgi_encoding_dance target;
             en_headers := env; en_chunked := chunked |}
+  end.
+
+(* ================================================================== spec side *)
+(* --- chunked framing, read off RFC 9112 as the property uses it: a one-shot decoder of a whole
+   input.  Result: the chunk data that may be handed to the application before the framing stops
+   being valid, whether the framing is complete, and what follows it.
+   Size lines are hexadecimal digits only (white space around them tolerated); a chunk is followed
+   by LF or CRLF (a lone CR at the very end of the input is tolerated) *)
+Definition is_term (t : bytes) : bool := list_eqb t [LF] || list_eqb t CRLF || list_eqb t [CR].
+
+Fixpoint ref_dechunk (fuel : nat) (w : bytes) : bytes * bool * bytes :=
+  match fuel with
+  | O => ([], false, [])
+  | S f =>
+    let '(line, r) := rf_readline w in
+    let t := strip uni_ws line in
+    if hex_str t then
+      let n := hex_value t in
+      if n =? 0 then
+        let '(term, r2) := rf_readline r in
+        if is_term term then ([], true, r2) else ([], false, [])
+      else
+        let data := takeN n r in
+        if lenN data <? n then (data, false, [])
+        else let '(term, r2) := rf_readline (dropN n r) in
+             if is_term term
+             then let '(b, c, tl) := ref_dechunk f r2 in (data ++ b, c, tl)
+             else (data, false, [])
+    else ([], false, [])
+  end.
+Definition ref (w : bytes) : bytes * bool * bytes := ref_dechunk (S (length w)) w.
+
+(* --- every well-framed encoding: per chunk optional blanks around a hexadecimal size in any
+   letter case with any leading zeros, LF or CRLF after the size line and after the data *)
+Definition term_ok (t : bytes) : bool := list_eqb t [LF] || list_eqb t CRLF.
+Definition pad_ok (p : bytes) : bool := forallb (fun c => (c =? 32) || (c =? 9)) p.
+Record cenc := { c_pad1 : bytes; c_hex : str; c_pad2 : bytes; c_t1 : bytes; c_data : bytes; c_t2 : bytes }.
+Definition cenc_ok (c : cenc) : bool :=
+  pad_ok (c_pad1 c) && pad_ok (c_pad2 c) && hex_str (c_hex c) && (hex_value (c_hex c) =? lenN (c_data c))
+  && (0 <? lenN (c_data c)) && term_ok (c_t1 c) && term_ok (c_t2 c).
+Definition frame (c : cenc) : bytes :=
+  c_pad1 c ++ c_hex c ++ c_pad2 c ++ c_t1 c ++ c_data c ++ c_t2 c.
+Record fenc := { f_pad1 : bytes; f_zeros : str; f_pad2 : bytes; f_t1 : bytes; f_t2 : bytes }.
+Definition fenc_ok (f : fenc) : bool :=
+  pad_ok (f_pad1 f) && pad_ok (f_pad2 f) && hex_str (f_zeros f) && (hex_value (f_zeros f) =? 0)
+  && term_ok (f_t1 f) && term_ok (f_t2 f).
+Definition frame_final (f : fenc) : bytes := f_pad1 f ++ f_zeros f ++ f_pad2 f ++ f_t1 f ++ f_t2 f.
+Definition wire (cs : list cenc) (f : fenc) (tail : bytes) : bytes :=
+  concat (map frame cs) ++ frame_final f ++ tail.
+Definition body (cs : list cenc) : bytes := concat (map c_data cs).
+
+(* split a body the way a sequence of read sizes does *)
+Fixpoint chop (sizes : list N) (b : bytes) : list bytes :=
+  match sizes with [] => [] | n :: r => takeN n b :: chop r (dropN n b) end.
+Definition sumN (l : list N) : N := fold_right N.add 0 l.
+Fixpoint is_prefix (a b : bytes) : bool :=
+  match a, b with
+  | [], _ => true
+  | x :: a', y :: b' => (x =? y) && is_prefix a' b'
+  | _ :: _, [] => false
+  end.
+
+(* --- percent-encoding of path bytes as a client may spell it: a byte is written literally when
+   `keep` says so and it is a printable ASCII character other than % ? #, else as %XX *)
+Definition upper_hex_digit (d : N) : N := if d <? 10 then 48 + d else 55 + d.
+Definition lit_ok (c : N) : bool := printable c && negb (c =? PCT) && negb (c =? QMARK) && negb (c =? HASH).
+Fixpoint pct_enc (keep : N -> bool) (b : bytes) : str :=
+  match b with
+  | [] => []
+  | c :: r => if keep c && lit_ok c then c :: pct_enc keep r
+              else PCT :: upper_hex_digit (c / 16) :: upper_hex_digit (c mod 16) :: pct_enc keep r
   end.
